@@ -35,8 +35,10 @@ class MethodMonitor:
             if exc is not None or not isinstance(res, dict):
                 return
             mon.ctx.event("StructureMetaType._update_fields")
-            folded = tuple(res["fields"].keys())
-            raw = tuple(res["lookup"].keys())
+            # (a member folded in from an anonymous structure may be called `fields` / `lookup` itself: the class then keeps
+            # its table behind a descriptor that hands instances the member)
+            folded = tuple(getattr(res["fields"], "class_value", res["fields"]).keys())
+            raw = tuple(getattr(res["lookup"], "class_value", res["lookup"]).keys())
             problems = []
             init = res["__init__"].__code__
             if init.co_varnames[: len(raw) + 1] != ("self", *raw):
@@ -403,8 +405,56 @@ def run(ctx):
             discard_field(ctx)
         if ctx.shard == 1:
             special_forms(ctx)
+        if ctx.shard == 2:
+            members_named_like_class_attributes(ctx)
     finally:
         mon.uninstall()
+
+
+def members_named_like_class_attributes(ctx):
+    """Members called `size`, `alignment`, `dynamic`, `fields`, `lookup` -- names the structure *class* uses itself --
+    as direct members and folded in from anonymous members (one and two levels, and inside a union): instances hold the
+    field (parsed, constructed, assigned: all reach the dumped bytes and nothing else), the class keeps its own
+    attribute (`len(T)`, `T.size`)."""
+    shapes = {
+        "direct": "struct T {{ uint8 a; uint16 {n}; uint8 z; }};",
+        "folded": "struct T {{ uint8 a; struct {{ uint16 {n}; }}; uint8 z; }};",
+        "folded-twice": "struct T {{ uint8 a; struct {{ struct {{ uint16 {n}; }}; }}; uint8 z; }};",
+        "folded-from-union": "struct T {{ uint8 a; union {{ struct {{ uint16 {n}; }}; uint16 raw; }}; uint8 z; }};",
+    }
+    for name in ("size", "alignment", "dynamic", "fields", "lookup", "plain"):
+        for shape, tmpl in shapes.items():
+            for compiled in (True, False):
+                for endian in "<>":
+                    text = tmpl.format(n=name)
+                    ctx.evaluation(("class-attribute-names", name, shape, compiled, endian))
+                    ctx.cell(f"member-named-like-a-class-attribute:{shape}")
+                    det = {"text": text, "compiled": compiled, "endian": endian, "workload": "class-attribute-names"}
+                    bo = "little" if endian == "<" else "big"
+                    try:
+                        cs = lib.load(text, endian, False, compiled)
+                        T = cs.T
+                        facts, want = {}, {}
+                        o = T(bytes([1]) + (0x1234).to_bytes(2, bo) + bytes([2]))
+                        facts["parsed"], want["parsed"] = int(getattr(o, name)), 0x1234
+                        facts["class"], want["class"] = (len(T), T.size), (4, 4)
+                        c = T(a=7, z=9, **{name: 0xBEEF})
+                        facts["constructed"], want["constructed"] = (int(getattr(c, name)), c.dumps().hex()), (0xBEEF, (bytes([7]) + (0xBEEF).to_bytes(2, bo) + bytes([9])).hex())
+                        d = T()
+                        d.a, d.z = 7, 9
+                        setattr(d, name, 0xBEEF)
+                        facts["assigned"], want["assigned"] = d.dumps().hex(), want["constructed"][1]
+                        facts["equal"], want["equal"] = (c == d, hash(c) == hash(d), c == T(c.dumps()), c != T(a=7, z=9, **{name: 1}), bool(T(**{name: 1})), bool(T())), (True, True, True, True, True, False)
+                        setattr(o, name, 0x0102)
+                        facts["locality"], want["locality"] = o.dumps().hex(), (bytes([1]) + (0x0102).to_bytes(2, bo) + bytes([2])).hex()
+                    except Exception as e:  # noqa: BLE001
+                        ctx.violation("names", f"member-named-like-a-class-attribute-raises:{type(e).__name__}", dict(det, error=lib.exc_sig(e)))
+                        continue
+                    bad = {k: (facts[k], want[k]) for k in want if facts[k] != want[k]}
+                    if bad:
+                        ctx.violation("names", "member-named-like-a-class-attribute-is-lost-or-replaces-it", dict(det, differing=repr(bad)[:600]))
+                    else:
+                        ctx.event("class_attribute_names_checked")
 
 
 def discard_field(ctx):
@@ -646,6 +696,7 @@ def replay(ctx, detail):
         f17_witness(ctx)
         discard_field(ctx)
         special_forms(ctx)
+        members_named_like_class_attributes(ctx)
         return
     case = engine.case_from_detail(detail)
     print("definition:\n" + case["text"])
